@@ -152,10 +152,10 @@ def reference(sc: Dict[str, Any]) -> Dict[str, Any]:
     qtext = sc["query_effective"]
     if qtext is None:
         try:
-            sc["files"]["/q.jsonpath"].encode("latin-1").decode("utf-8")
+            sc["files"][sc["names"]["q"]].encode("latin-1").decode("utf-8")
         except UnicodeDecodeError:
             return {"expect": "fail", "phase": "query-file", "why": "query file is not valid UTF-8"}
-        qtext = sc["files"]["/q.jsonpath"].encode("latin-1").decode("utf-8").strip()
+        qtext = sc["files"][sc["names"]["q"]].encode("latin-1").decode("utf-8").strip()
     qcap = query_complexity(qtext) > QUERY_CAPACITY
     try:
         path = jp.JSONPathEnvironment().compile(qtext)
@@ -438,6 +438,10 @@ def gen_scenario(rng) -> Dict[str, Any]:
     delivery = rng.choice(("-q", "--query=", "-r"))
     if "\x00" in qtext or qtext.startswith("-"):
         delivery = "-r"  # no NUL in a real argv; a leading '-' would be taken for an option
+    # file names are part of the input space too
+    n_doc = rng.choice(("/doc.json", "/doc.json", "/data/my doc.json", "/doc.jsonl", "/doc.json.gz", "/doc.json5", "/doc", "/d.JSON", "/doc.txt"))
+    n_q = rng.choice(("/q.jsonpath", "/q.jsonpath", "/q.txt", "/query.json", "/$.a", "/my query"))
+    n_out = rng.choice(("/out.json", "/out.json", "/out.jsonl", "/out file.txt", "/out", "/result.gz"))
     qfile_fault = "none"
     files: Dict[str, bytes] = {}
     argv: List[str] = []
@@ -474,13 +478,13 @@ def gen_scenario(rng) -> Dict[str, Any]:
             raw = b"\xef\xbb\xbf" + raw
             query_effective = "\ufeff" + (pad_l + body + pad_r)
             query_effective = query_effective.strip()
-        files["/q.jsonpath"] = raw
-        argv += ["-r", "/q.jsonpath"]
+        files[n_q] = raw
+        argv += [rng.choice(("-r", "-r", "--query-file")), n_q]
     channel = rng.choice(("-f", "-f -", "stdin"))
     stdin_bytes = b""
     if channel == "-f":
-        files["/doc.json"] = doc_bytes
-        argv += ["-f", "/doc.json"]
+        files[n_doc] = doc_bytes
+        argv += [rng.choice(("-f", "-f", "--file")), n_doc]
     elif channel == "-f -":
         stdin_bytes = doc_bytes
         argv += ["-f", "-"]
@@ -490,9 +494,32 @@ def gen_scenario(rng) -> Dict[str, Any]:
     if out == "stdout" and rng.random() < 0.1:
         argv += [rng.choice(("-o", "--output", "--out")), "-"]  # '-' means standard output
     if out == "-o":
-        argv += [rng.choice(("-o", "-o", "--output", "--out")), "/out.json"]
+        argv += [rng.choice(("-o", "-o", "--output", "--out")), n_out]
         if rng.random() < 0.35:
-            files["/out.json"] = ("[" + "\"stale\", " * rng.choice((3, 400)) + "0]\n").encode()
+            files[n_out] = ("[" + "\"stale\", " * rng.choice((3, 400)) + "0]\n").encode()
+    # option order and harmless repetition
+    if rng.random() < 0.5:
+        groups, i = [], 0
+        while i < len(argv):
+            if argv[i] in ("-q", "-r", "--query-file", "-f", "--file", "-o", "--output", "--out") and i + 1 < len(argv):
+                groups.append(argv[i : i + 2])
+                i += 2
+            else:
+                groups.append(argv[i : i + 1])
+                i += 1
+        rng.shuffle(groups)
+        argv = [a for g in groups for a in g]
+    if rng.random() < 0.1 and ("--pretty" in argv or "--pre" in argv):
+        argv.append("--pretty")
+    env_swarm: Dict[str, Any] = {}
+    if rng.random() < 0.4:
+        for k, vals in (("COLUMNS", ("20", "80", "200", None)), ("NO_COLOR", ("1", None)), ("TERM", ("dumb", "xterm-256color", None)), ("LANG", ("C", "C.UTF-8", "en_US.UTF-8", None)), ("LC_ALL", ("C", None)), ("FORCE_COLOR", ("1", None)), ("PYTHONWARNINGS", ("default", None)), ("JSONPATH_RFC9535_DEBUG", ("1", None))):
+            if rng.random() < 0.4:
+                env_swarm[k] = rng.choice(vals)
+    tty = rng.random() < 0.2
+    # the encoding of the output text stream comes from the process environment (locale,
+    # PYTHONIOENCODING); an ASCII-only one is common (LANG=C)
+    out_encoding = "ascii" if rng.random() < 0.15 else "utf-8"
     nchunk = rng.choice((0, 1, 2, 3))
     chunks = [rng.choice((1, 2, 3, 5, 7, 16, 64)) for _ in range(nchunk)]
     return {
@@ -501,6 +528,10 @@ def gen_scenario(rng) -> Dict[str, Any]:
         "stdin": stdin_bytes.decode("latin-1"),
         "stdin_errors": rng.choice(("strict", "strict", "surrogateescape")),
         "chunks": chunks,
+        "environ": env_swarm,
+        "tty": tty,
+        "out_encoding": out_encoding,
+        "names": {"doc": n_doc, "q": n_q, "out": n_out},
         "query_effective": query_effective,
         "qclass": qclass,
         "qfile_fault": qfile_fault,
@@ -518,19 +549,19 @@ def gen_scenario(rng) -> Dict[str, Any]:
 # ---------------------------------------------------------------------------
 def _doc_bytes(sc: Dict[str, Any]) -> bytes:
     if sc["channel"] == "-f":
-        return sc["files"]["/doc.json"].encode("latin-1")
+        return sc["files"][sc["names"]["doc"]].encode("latin-1")
     return sc["stdin"].encode("latin-1")
 
 
 def execute(sc: Dict[str, Any]) -> Dict[str, Any]:
     files = {k: v.encode("latin-1") for k, v in sc["files"].items()}
-    return fakeio.run_cli(cli.main, sc["argv"], files, sc["stdin"].encode("latin-1"), stdin_errors=sc["stdin_errors"], chunks=sc["chunks"])
+    return fakeio.run_cli(cli.main, sc["argv"], files, sc["stdin"].encode("latin-1"), stdin_errors=sc["stdin_errors"], chunks=sc["chunks"], tty=sc.get("tty", False), environ=sc.get("environ"), module=cli, out_encoding=sc.get("out_encoding", "utf-8"))
 
 
 def judge(sc: Dict[str, Any], obs: Dict[str, Any], ref: Dict[str, Any]) -> List[Tuple[str, str]]:
     """List of (class, what)."""
     out: List[Tuple[str, str]] = []
-    primary = obs["outputs"].get("/out.json", "") if sc["out"] == "-o" else obs["stdout"]
+    primary = obs["outputs"].get(sc["names"]["out"], "") if sc["out"] == "-o" else obs["stdout"]
     other = obs["stdout"] if sc["out"] == "-o" else ""
     stderr = obs["stderr"]
 
@@ -644,7 +675,7 @@ def run_one(seed: int, tier: str, index: int) -> Dict[str, Any]:
         st["probe_evaluation_error"] += 1
     if sc["fault"] in ("byteflip", "bitflip") and ref["expect"] == "ok":
         st["probe_flip_left_document_valid"] += 1
-    primary = obs["outputs"].get("/out.json", "") if sc["out"] == "-o" else obs["stdout"]
+    primary = obs["outputs"].get(sc["names"]["out"], "") if sc["out"] == "-o" else obs["stdout"]
     events = [sc["argv"], sc["channel"], sc["fault"], obs["status"], obs["escaped"], seeds.digest(primary), seeds.digest(obs["stderr"])]
     sig = None
     if sc["fault"] != "none" or sc["qclass"] != "generated":
@@ -657,10 +688,23 @@ def run_one(seed: int, tier: str, index: int) -> Dict[str, Any]:
 
 def replay(payload: Dict[str, Any]) -> List[Dict[str, Any]]:
     worker_init()
+    if payload.get("real_process"):
+        sc = payload["scenario"]
+        scratch = os.path.join(driver.VERIF, "scratch", f"c20-replay-{os.getpid()}")
+        os.makedirs(scratch, exist_ok=True)
+        try:
+            sc2 = dict(sc)
+            sc2["doc_bytes"] = _doc_bytes(sc)
+            real = _real_run(sc, scratch)
+            return [{"class": c, "signature": f"C20:{c}:real-process", "what": w, "payload": payload} for c, w in judge(sc, real, reference(sc2))]
+        finally:
+            shutil.rmtree(scratch, ignore_errors=True)
     return run_scenario(payload["scenario"])["violations"]
 
 
 def shrink_candidates(payload: Dict[str, Any]):
+    if payload.get("real_process"):
+        return
     sc = payload["scenario"]
     # a simpler query (only when given inline or by file without byte faults)
     if sc["qfile_fault"] == "none" and sc["query_effective"] is not None:
@@ -676,8 +720,8 @@ def shrink_candidates(payload: Dict[str, Any]):
                     elif a.startswith("--query="):
                         argv[i] = "--query=" + q2
                         done = True
-                if "/q.jsonpath" in files:
-                    files["/q.jsonpath"] = q2
+                if sc["names"]["q"] in files:
+                    files[sc["names"]["q"]] = q2
                     done = True
                 if done:
                     yield {"scenario": {**sc, "argv": argv, "files": files, "query_effective": q2}}
@@ -693,8 +737,8 @@ def shrink_candidates(payload: Dict[str, Any]):
     if sc["chunks"]:
         yield {"scenario": {**sc, "chunks": []}}
     # shrink the document bytes (halves, then single deletions near the end)
-    key = "/doc.json" if sc["channel"] == "-f" else None
-    data = sc["files"]["/doc.json"] if key else sc["stdin"]
+    key = sc["names"]["doc"] if sc["channel"] == "-f" else None
+    data = sc["files"][key] if key else sc["stdin"]
     n = len(data)
     cands = []
     if n > 1:
@@ -710,61 +754,136 @@ def shrink_candidates(payload: Dict[str, Any]):
 
 
 # ---------------------------------------------------------------------------
-# stub fidelity: the same scenarios through a real subprocess
+# stub fidelity: the same scenarios through a real process
 # ---------------------------------------------------------------------------
+def _real_run(sc: Dict[str, Any], scratch: str) -> Dict[str, Any]:
+    """Run the scenario through `python -m jsonpath_rfc9535` with real files, a real pipe on
+    stdin and -- when the scenario says tty -- a real pseudo-terminal on stdout/stderr."""
+    import pty
+    import tty as _tty
+
+    names = {v: os.path.join(scratch, "f%d%s" % (i, os.path.splitext(v)[1] or "")) for i, v in enumerate(sorted(set(sc["names"].values()) | set(sc["files"])))}
+    argv = [names.get(a, a) for a in sc["argv"]]
+    for k in list(names.values()):
+        if os.path.exists(k):
+            os.remove(k)
+    for k, v in sc["files"].items():
+        with open(names[k], "wb") as fd:
+            fd.write(v.encode("latin-1"))
+    env = dict(os.environ)
+    env["PYTHONPATH"] = os.environ.get("VERIF_REPO", "/repo")
+    enc = sc.get("out_encoding", "utf-8") if sc["channel"] == "-f" and sc["out"] != "-o" else "utf-8"
+    env["PYTHONIOENCODING"] = enc + ":" + sc["stdin_errors"]
+    env["PYTHONDONTWRITEBYTECODE"] = "1"
+    env["HOME"] = scratch
+    for k, v in (sc.get("environ") or {}).items():
+        if v is None:
+            env.pop(k, None)
+        else:
+            env[k] = v
+    cmd = [sys.executable, "-B", "-m", "jsonpath_rfc9535", *argv]
+    stdin_data = sc["stdin"].encode("latin-1")
+    if sc.get("tty"):
+        m_out, s_out = pty.openpty()
+        m_err, s_err = pty.openpty()
+        _tty.setraw(s_out)
+        _tty.setraw(s_err)
+        p = subprocess.Popen(cmd, stdin=subprocess.PIPE, stdout=s_out, stderr=s_err, env=env, cwd=scratch)
+        os.close(s_out)
+        os.close(s_err)
+        try:
+            p.stdin.write(stdin_data)
+            p.stdin.close()
+        except BrokenPipeError:
+            pass
+
+        def drain(fd: int) -> bytes:
+            out = b""
+            while True:
+                try:
+                    b = os.read(fd, 65536)
+                except OSError:
+                    break
+                if not b:
+                    break
+                out += b
+            os.close(fd)
+            return out
+
+        import threading
+
+        res: Dict[str, bytes] = {}
+        t1 = threading.Thread(target=lambda: res.__setitem__("o", drain(m_out)))
+        t2 = threading.Thread(target=lambda: res.__setitem__("e", drain(m_err)))
+        t1.start(), t2.start()
+        rc = p.wait(timeout=120)
+        t1.join(), t2.join()
+        so, se = res["o"], res["e"]
+    else:
+        cp = subprocess.run(cmd, input=stdin_data, capture_output=True, env=env, timeout=120, cwd=scratch, check=False)
+        rc, so, se = cp.returncode, cp.stdout, cp.stderr
+    real_err = se.decode("utf-8", "replace")
+    outp = names.get(sc["names"]["out"])
+    real_file = ""
+    if sc["out"] == "-o" and outp and os.path.exists(outp):
+        with open(outp, encoding="utf-8", errors="replace") as fd:
+            real_file = fd.read()
+    tb = "Traceback (most recent call last)" in real_err
+    last = real_err.strip().splitlines()[-1] if real_err.strip() else ""
+    return {
+        "status": rc, "stdout": so.decode("utf-8", "replace"), "stderr": real_err,
+        "outputs": {sc["names"]["out"]: real_file} if sc["out"] == "-o" else {},
+        "escaped": (last.split(":")[0].split(".")[-1] or "Exception") if tb else None,
+        "escaped_msg": last[:200], "escaped_where": "real-process", "traceback": real_err if tb else "",
+        "reads": 0, "split_multibyte": 0,
+    }
+
+
 def finish(tier: str, base: int, merged: Dict[str, Any]) -> Dict[str, Any]:
+    """A sample of the batch's scenarios is run through a real process as well: the in-process
+    observation must agree with the real one (stub fidelity), and the real one is judged against
+    the reference in its own right (so a defect that lives in what the stubs replace -- the
+    process environment, terminals, real descriptors -- is still a VIOLATION)."""
     worker_init()
-    n = 200 if tier == "thorough" else 24
+    n = 300 if tier == "thorough" else 40
     scratch = os.path.join(driver.VERIF, "scratch", f"c20-{os.getpid()}")
     os.makedirs(scratch, exist_ok=True)
     checked = 0
+    violations: List[Dict[str, Any]] = []
+    mismatch = None
     try:
         i = 0
         while checked < n and i < 50 * n:
             seed = seeds.run_seed(base, PROPERTY, tier, i)
             i += 1
             sc = gen_scenario(seeds.stream(seed, "workload"))
-            if sc["fault"] == "over-deep" or sc["chunks"] and False:
+            if sc["fault"] == "over-deep" or sc["dkind"].startswith("large") or any("\x00" in a for a in sc["argv"]):
                 continue
+            sc2 = dict(sc)
+            sc2["doc_bytes"] = _doc_bytes(sc)
+            ref = reference(sc2)
             obs = execute(sc)
-            # real files
-            argv = []
-            for a in sc["argv"]:
-                if a in ("/q.jsonpath", "/doc.json", "/out.json"):
-                    a = os.path.join(scratch, a[1:])
-                argv.append(a)
-            for k, v in sc["files"].items():
-                with open(os.path.join(scratch, k[1:]), "wb") as fd:
-                    fd.write(v.encode("latin-1"))
-            outp = os.path.join(scratch, "out.json")
-            if os.path.exists(outp):
-                os.remove(outp)
-            env = dict(os.environ)
-            env["PYTHONPATH"] = os.environ.get("VERIF_REPO", "/repo")
-            env["PYTHONIOENCODING"] = "utf-8:" + sc["stdin_errors"]
-            env["PYTHONDONTWRITEBYTECODE"] = "1"
-            p = subprocess.run([sys.executable, "-B", "-m", "jsonpath_rfc9535", *argv], input=sc["stdin"].encode("latin-1"), capture_output=True, env=env, timeout=60, cwd=scratch, check=False)
-            real_out = p.stdout.decode("utf-8", "replace")
-            real_err = p.stderr.decode("utf-8", "replace")
-            real_file = open(outp).read() if os.path.exists(outp) else ""
-            real_tb = "Traceback (most recent call last)" in real_err
-            problems = []
-            if p.returncode != obs["status"]:
-                problems.append(f"status {p.returncode} vs {obs['status']}")
-            if real_out != obs["stdout"]:
-                problems.append(f"stdout {real_out[:80]!r} vs {obs['stdout'][:80]!r}")
-            if real_file != obs["outputs"].get("/out.json", ""):
-                problems.append("output file differs")
-            if obs["escaped"] is not None:
-                # an exception leaving main() is the interpreter's traceback + status 1
-                last = real_err.strip().splitlines()[-1] if real_err.strip() else ""
-                if not real_tb or not last.startswith(obs["escaped"]) and obs["escaped"] not in last:
-                    problems.append(f"in-process exception {obs['escaped']} vs real stderr tail {last[:80]!r}")
-            elif real_err != obs["stderr"]:
-                problems.append(f"stderr {real_err[:80]!r} vs {obs['stderr'][:80]!r}")
-            if problems:
-                raise driver.HarnessError(f"stub fidelity mismatch for argv={sc['argv']} fault={sc['fault']} channel={sc['channel']} stdin_errors={sc['stdin_errors']}: " + "; ".join(problems))
+            real = _real_run(sc, scratch)
             checked += 1
+            for cls, what in judge(sc, real, ref):
+                head = f"[real process] argv={sc['argv']} channel={sc['channel']} fault={sc['fault']} tty={sc.get('tty')} env={sc.get('environ')}: "
+                violations.append({"class": cls, "signature": f"C20:{cls}:real-process", "what": head + what, "payload": {"scenario": sc, "real_process": True}})
+            if mismatch is None:
+                problems = []
+                if real["status"] != obs["status"]:
+                    problems.append(f"status {real['status']} vs {obs['status']}")
+                if real["stdout"] != obs["stdout"]:
+                    problems.append(f"stdout {real['stdout'][:80]!r} vs {obs['stdout'][:80]!r}")
+                if real["outputs"].get(sc["names"]["out"], "") != obs["outputs"].get(sc["names"]["out"], ""):
+                    problems.append("output file differs")
+                if (real["escaped"] is not None) != (obs["escaped"] is not None):
+                    problems.append(f"traceback {real['escaped']} vs escaped {obs['escaped']}")
+                elif obs["escaped"] is None and real["stderr"] != obs["stderr"]:
+                    problems.append(f"stderr {real['stderr'][:80]!r} vs {obs['stderr'][:80]!r}")
+                if problems:
+                    mismatch = f"stub fidelity mismatch for argv={sc['argv']} fault={sc['fault']} channel={sc['channel']} stdin_errors={sc['stdin_errors']} tty={sc.get('tty')} env={sc.get('environ')}: " + "; ".join(problems)
     finally:
         shutil.rmtree(scratch, ignore_errors=True)
-    return {"stub_fidelity_scenarios_cross_checked_in_real_subprocess": checked}
+    if mismatch is not None and not violations:
+        raise driver.HarnessError(mismatch)
+    return {"stub_fidelity_scenarios_cross_checked_in_real_subprocess": checked, "violations": violations}
